@@ -134,6 +134,8 @@ def groupMembers (descs : List Desc) (ty grp : Nat) : List Desc :=
 structure Beh where
   ctor : Nat → Nat → Outcome := fun _ _ => .ok
   close : Nat → Nat → Bool := fun _ _ => false    -- true = Close returns an error
+  /-- a result object may leave one of its fields nil: `ProcessResultObject` skips it -/
+  nilField : Nat → Nat → Option Nat := fun _ _ => none
 
 /-! ### small state updates -/
 
@@ -312,11 +314,18 @@ def createInstance (beh : Beh) : Nat → State → Nat → Desc → State × Exc
             let r := setInstance (logEv st2 (.ctor d.id d.ctor n s args [])) s d d.ident .unit
             (r.1, okOr r.2 .unit)
           | .multi =>
-            let sibs' := if sibs.isEmpty then [d] else sibs
+            let sibs0 := if sibs.isEmpty then [d] else sibs
+            -- a nil field produces no value: the remaining fields are stored, the nil one is skipped
+            let sibs' := match beh.nilField d.ctor n with
+              | some k => sibs0.eraseIdx k
+              | none => sibs0
             let outs := allocOuts st2.next sibs'.length
             let st3 := logEv (alloc st2 sibs'.length d.ctor n) (.ctor d.id d.ctor n s args outs)
             let r := storeOuts st3 s sibs' outs
-            (r.1, okOr r.2 (.inst (outs.getD (idxOfDesc sibs' d.id) 0)))
+            (r.1, if (sibs'.map (·.id)).contains d.id then okOr r.2 (.inst (outs.getD (idxOfDesc sibs' d.id) 0))
+                  else match r.2 with
+                    | .error e => .error e
+                    | .ok _ => .error [.validation])  -- "result object produced no services"
           | _ =>
             let i := st2.next
             let st3 := logEv (alloc st2 1 d.ctor n) (.ctor d.id d.ctor n s args [i])
